@@ -146,7 +146,14 @@ def fam_num_options(tier):
                       ("two-lists-two-units", [OPTS(["2"], "m"), OPTS(["300", "500"], "cm")]),
                       ("per-line+list", [OPT("2"), OPTS(["300", "500"], "cm")]),
                       ("list-km", [OPTS(["0.002", "0.003", "0.005"], "km")] if typ == "float" else
-                       [OPTS(["2000", "3000", "5000"], "mm")])]
+                       [OPTS(["2000", "3000", "5000"], "mm")]),
+                      # the same NUMERALS listed in two units are different options
+                      ("same-numerals-cm-then-m", [OPTS(["2", "3", "5"], "cm"), OPTS(["2", "3", "5"], "m")]),
+                      ("same-numerals-m-then-cm", [OPTS(["2", "3", "5"], "m"), OPTS(["2", "3", "5"], "cm")]),
+                      ("same-numerals-mm-cm-plain", [OPTS(["2", "3", "5"], "mm"), OPTS(["2", "3", "5"], "cm"),
+                                                     OPTS(["2", "3", "5"])]),
+                      ("same-numeral-per-line", [OPT("5", "cm"), OPT("5", "m"), OPT("3", "mm"), OPT("3")]),
+                      ("same-numeral-plain-then-unit", [OPT("3"), OPT("3", "cm"), OPT("5", "km"), OPT("5", "m")])]
         finals = [("on", ("3", None)), ("on", ("5", None)), ("off", ("4", None)), ("off", ("7", None))]
         if unit:
             finals += [("on-converted", ("300", "cm")), ("on-converted", ("2000", "mm")),
@@ -155,7 +162,8 @@ def fam_num_options(tier):
             finals += [("off-1e-5", ("3.00003", None)), ("off-1e-3", ("3.003", None)), ("off-1e-3", ("2.997", None))]
             if unit:
                 finals += [("on-converted", ("0.005", "km")), ("off-1e-3", ("300.3", "cm")),
-                           ("off-1e-5", ("500.005", "cm"))]
+                           ("off-1e-5", ("500.005", "cm")), ("small", ("3", "cm")), ("small", ("5", "mm")),
+                           ("small", ("0.03", None)), ("large", ("5", "km"))]
         for (fname, props), (ftag, final) in itertools.product(forms, finals):
             for ptag, d, mods, conv, interm in paths_numeric(typ, unit, final, "2", "9", tier):
                 tags = ["type=" + typ, "unit=" + str(unit), "kind=options", "form=" + fname, "final=" + ftag,
@@ -416,6 +424,29 @@ def fam_str(tier):
         if len(props) >= 2 and tier == "thorough":
             yield (["type=str", "kind=" + "+".join(kinds), "final=" + final, "path=def", "props-reversed"] + tg,
                    D("a", "str", S(final)), props[::-1], [])
+
+
+def fam_none_with_options(tier):
+    """a node that lists options and whose FINAL value is none: none is not one of the options -> parse() must fail
+    (conditions and formats on none stay unjudged)"""
+    for typ, unit in (("int", None), ("int", "m"), ("float", None), ("float", "m"), ("str", None)):
+        if typ == "str":
+            ok, forms = S("abc"), [("per-line", [OPT(S("abc")), OPT(S("xyz"))]), ("list", [OPTS([S("abc"), S("xyz")])])]
+        else:
+            ok, forms = "3", [("per-line", [OPT("2"), OPT("3")]), ("list", [OPTS(["2", "3"])])]
+            if unit:
+                forms.append(("list-other-unit", [OPTS(["200", "300"], "cm")]))
+        for fname, props in forms:
+            base = ["type=" + typ, "unit=" + str(unit), "kind=options", "form=" + fname, "final=none"]
+            yield base + ["path=mod1"], D("a", typ, ok, unit), props, [M("a", G.NONE)]
+            yield base + ["path=mod2"], D("a", typ, ok, unit), props, [M("a", ok), M("a", G.NONE)]
+            yield base + ["path=decl"], D("a", typ, None, unit), props, [M("a", G.NONE)]
+            if unit is None:
+                yield base + ["path=def"], D("a", typ, G.NONE, unit), props, []
+            # controls: emptied and refilled with a listed value / with a value off the list
+            yield base + ["path=none-then-listed"], D("a", typ, ok, unit), props, [M("a", G.NONE), M("a", ok)]
+            yield (base + ["path=none-then-unlisted"], D("a", typ, ok, unit), props,
+                   [M("a", G.NONE), M("a", S("nope") if typ == "str" else "9")])
 
 
 def RF(path, sl=None):
@@ -729,13 +760,13 @@ def fam_dims_missing(tier):
                [row, D("a", typ, {"ref": {"src": None, "path": "row", "slice": [[1, 3]]}}, None, [[2, 2]])], [], [])
 
 
-FAMILIES = dict(options_by_ref=fam_options_by_ref, str_numeric=fam_str_numeric, mixed_logic=fam_mixed_logic, magnitude=fam_magnitude, int_options_nonintegral=fam_int_options_nonintegral,
+FAMILIES = dict(none_with_options=fam_none_with_options, options_by_ref=fam_options_by_ref, str_numeric=fam_str_numeric, mixed_logic=fam_mixed_logic, magnitude=fam_magnitude, int_options_nonintegral=fam_int_options_nonintegral,
                 dims_missing=fam_dims_missing,
                 num_options=fam_num_options, num_condition=fam_num_condition, num_pairs=fam_num_pairs,
                 str=fam_str, bool=fam_bool, declared=fam_declared, dims=fam_dims)
 # families in which both verdicts must occur (vacuity guard)
 BOTH = ["num_options", "num_condition", "num_pairs", "str", "bool", "declared", "dims", "dims_missing", "magnitude", "mixed_logic",
-        "options_by_ref", "str_numeric"]
+        "options_by_ref", "str_numeric", "none_with_options"]
 
 
 # ------------------------------------------------------------------------------------------------ judging
